@@ -24,9 +24,9 @@ def history(rng, nops):
     return sc
 
 
-def deep(rng, n):
+def deep(rng, n, q=None):
     """grow one structure to n elements (beyond any small-capacity threshold), drain it to empty, use it again"""
-    q = rng.random() < 0.4
+    q = (rng.random() < 0.4) if q is None else q
     push, pop, peek, ln = ("enq %d", "deq", "qpeek", "qlen") if q else ("push %d", "pop", "speek", "slen")
     sc = [push % i for i in range(n)] + [ln]
     for i in range(n + 1):
@@ -51,6 +51,8 @@ def explore(core, rng, tier, seed, search=False):
     n, nops = (500, 60) if tier == "quick" else (10000, 200)
     scripts = [history(rng, nops) for _ in range(n)]
     scripts += [deep(rng, rng.choice([65, 100, 129, 300, 1000] if tier == "quick" else [65, 129, 257, 1025, 5000])) for _ in range(6 if tier == "quick" else 40)]
+    # always: both structures past the capacities 1024 and 2048 (a growth or shrink path that only engages there), drained to empty
+    scripts += [deep(rng, n, q) for n in (1100, 2600) for q in (False, True)]
     depth = 6 if tier == "quick" else 9
     scripts += exhaustive(depth, ["enq %d", "deq", "qpeek", "qlen"]) + exhaustive(depth, ["push %d", "pop", "speek", "slen"])
     nt = lambda sc: sum(1 for l in sc if l.startswith(("enq", "push"))) >= 3 and sum(1 for l in sc if l in ("deq", "pop")) >= 3
